@@ -22,6 +22,11 @@ import (
 //   C  plain indices `[n]`: one case per length, n ∈ [-7..7] ∪ boundary magnitudes
 //   D  random: lengths 0..40, bounds from a mix of small / near-length / power-of-two / random
 //      64-bit values, unions of 1..3 subscripts in a random insignificant spelling
+// Parse ONCE, call often: every slice (A, B: every (start,end,step) of the case; C: every index; D:
+// every union) is additionally parsed a single time and the one returned function is called over
+// a list of lengths in several orders — ascending, descending, zig-zag short-long-short — next to
+// the fresh Retrieves. Every call must select what Python selects for THAT length (the selection
+// depends on the bounds and the length only, not on the arrays the parsed slice has met before).
 // Oracles per slice: (1) c11PySlice, a transcription of CPython's PySlice_Unpack +
 // PySlice_AdjustIndices + range; (2) python3 itself, one subprocess per worker fed through
 // stdin/stdout; (3) Lean Spec.run (pySlice); correspondence with Impl.run (error text included).
@@ -338,6 +343,8 @@ type c11Bundle struct {
 	slices   int
 	nonempty int
 	tags     map[string]bool
+	// parse-once checks: functions parsed, calls made
+	parsedOnce, onceCalls int
 }
 
 func (b *c11Bundle) fail(text string, doc interface{}, class, what string) {
@@ -474,6 +481,96 @@ func (b *c11Bundle) run(items []c11Item, r *Rng) {
 	}
 }
 
+// c11Orders: the lengths (ascending, without duplicates) in the orders one parsed function is
+// called with: ascending, descending, zig-zag (shortest, longest, 2nd shortest, 2nd longest …),
+// and back to the shortest and the longest.
+func c11Orders(lens []int) []int {
+	n := len(lens)
+	seq := make([]int, 0, 3*n+2)
+	seq = append(seq, lens...)
+	for k := n - 1; k >= 0; k-- {
+		seq = append(seq, lens[k])
+	}
+	for lo, hi := 0, n-1; lo <= hi; lo, hi = lo+1, hi-1 {
+		seq = append(seq, lens[lo])
+		if hi > lo {
+			seq = append(seq, lens[hi])
+		}
+	}
+	return append(seq, lens[0], lens[n-1])
+}
+
+func c11Lens(ls ...int) []int {
+	seen := map[int]bool{}
+	var out []int
+	for _, l := range ls {
+		if l >= 0 && !seen[l] {
+			seen[l] = true
+			out = append(out, l)
+		}
+	}
+	sort.Ints(out)
+	return out
+}
+
+// once parses `$[subs]` ONE time and calls the returned function over the lengths in the
+// orders of c11Orders; every call is compared with the Python semantics for its length.
+func (b *c11Bundle) once(subs []Sub, lens []int, r *Rng) {
+	p := &Path{Head: HeadRoot, Steps: []*Step{{Kind: StUnion, Subs: subs}}}
+	text := Render(p, r)
+	f, po := SafeParse(text, nil)
+	if f == nil {
+		b.fail(text, nil, "abnormal", strings.TrimSpace(text)+": Parse fails: "+clip(po.Detail(), 600))
+		return
+	}
+	b.parsedOnce++
+	var hist []string
+	for _, l := range c11Orders(lens) {
+		doc := c11Doc(l)
+		out := SafeCall(f, doc)
+		hist = append(hist, strconv.Itoa(l))
+		b.onceCalls++
+		var want []int64
+		for _, s := range subs {
+			want = append(want, c11SubIndices(s, int64(l))...)
+		}
+		where := fmt.Sprintf("%s parsed ONCE, the function called on the lengths %s: the last call (on [0..%d))", strings.TrimSpace(text), strings.Join(hist, ","), l)
+		bad := ""
+		switch {
+		case out.OK:
+			got := make([]int64, len(out.Vals))
+			notNum := false
+			for i, v := range out.Vals {
+				fl, ok := v.(float64)
+				if !ok {
+					notNum = true
+				}
+				got[i] = int64(fl)
+			}
+			if notNum || !c11EqInts(got, want) {
+				bad = fmt.Sprintf("%s selects %s, a Python slice selects %s", where, c11Ints(got), c11Ints(want))
+			}
+		case out.ErrKind == "member":
+			if len(want) > 0 {
+				bad = fmt.Sprintf("%s fails with %q, a Python slice selects %s", where, out.Msg, c11Ints(want))
+			} else if out.ErrText != p.Steps[0].Text {
+				b.fail(text, doc, "wrong-error", fmt.Sprintf("%s: the error names %q instead of %q", where, out.ErrText, p.Steps[0].Text))
+			}
+		default:
+			b.fail(text, doc, "abnormal", where+": "+clip(out.Detail(), 600))
+		}
+		if bad != "" {
+			if _, seen := b.rec.Info["parsed_once"]; !seen {
+				b.rec.Info["parsed_once"] = map[string]interface{}{"path": text, "lengths_called_in_order": strings.Join(hist, ","),
+					"fresh_retrieve_on_last_length": c08Show(Run(text, doc, nil))}
+			}
+			b.fail(text, doc, "parsed-once", bad)
+			b.tags["once:differs"] = true
+			return // the function is spoilt; later calls only repeat the finding
+		}
+	}
+}
+
 func c11Ptr(v int64) *int64 { return &v }
 
 func (c11) Exec(seed int64, i int, tier string) Record {
@@ -481,7 +578,9 @@ func (c11) Exec(seed int64, i int, tier string) Record {
 	r := CaseRng(seed, "C11", i)
 	b := &c11Bundle{rec: Record{Info: map[string]interface{}{}}, tags: map[string]bool{}}
 	var items []c11Item
-	var spell *Rng // nil: plainest spelling
+	var spell *Rng       // nil: plainest spelling
+	var onceSubs [][]Sub // parse-once checks: the subscript lists and the lengths each is called on
+	var onceLens [][]int
 	part := ""
 	switch {
 	case i < plan.nA:
@@ -496,6 +595,8 @@ func (c11) Exec(seed int64, i int, tier string) Record {
 				}
 				items = append(items, c11Item{Len: l, Subs: []Sub{{Kind: SubSlice, S: s, E: e, T: t}}})
 			}
+			onceSubs = append(onceSubs, []Sub{{Kind: SubSlice, S: s, E: e, T: t}})
+			onceLens = append(onceLens, c11Lens(0, 1, 2, 3, 4, 5, 6))
 		}
 	case i < plan.nA+plan.nB:
 		part = "B"
@@ -511,6 +612,8 @@ func (c11) Exec(seed int64, i int, tier string) Record {
 		b.rec.Doc = fmt.Sprintf("[0..%d)", l)
 		for _, t := range bs {
 			items = append(items, c11Item{Len: l, Subs: []Sub{{Kind: SubSlice, S: s, E: e, T: t}}})
+			onceSubs = append(onceSubs, []Sub{{Kind: SubSlice, S: s, E: e, T: t}})
+			onceLens = append(onceLens, c11Lens(0, 1, l-1, l, l+1, 2*l+1, 9))
 		}
 	case i < plan.nA+plan.nB+plan.nC:
 		part = "C"
@@ -522,6 +625,8 @@ func (c11) Exec(seed int64, i int, tier string) Record {
 			if !seen[n] {
 				seen[n] = true
 				items = append(items, c11Item{Len: l, Subs: []Sub{{Kind: SubIdx, N: n}}})
+				onceSubs = append(onceSubs, []Sub{{Kind: SubIdx, N: n}})
+				onceLens = append(onceLens, c11Lens(0, 1, l-1, l, l+1, 9))
 			}
 		}
 		for n := int64(-8); n <= 8; n++ {
@@ -564,6 +669,18 @@ func (c11) Exec(seed int64, i int, tier string) Record {
 		}
 	}
 	b.run(items, spell)
+	if part == "D" {
+		// every union once more: parsed once, called on its own length and on shorter and longer ones
+		for _, it := range items {
+			onceSubs = append(onceSubs, it.Subs)
+			onceLens = append(onceLens, c11Lens(0, 1, it.Len, it.Len+1, r.Range(0, 12), r.Range(0, 12), r.Range(0, 2*it.Len+3)))
+		}
+	}
+	for k := range onceSubs {
+		b.once(onceSubs[k], onceLens[k], spell)
+	}
+	b.rec.Info["parsed_once_functions"] = b.parsedOnce
+	b.rec.Info["parsed_once_calls"] = b.onceCalls
 	b.rec.Info["part"] = part
 	b.rec.Info["slices"] = b.slices
 	b.rec.Info["nonempty"] = b.nonempty
@@ -571,6 +688,9 @@ func (c11) Exec(seed int64, i int, tier string) Record {
 		b.rec.Tags = append(b.rec.Tags, t)
 	}
 	b.rec.Tags = append(b.rec.Tags, "part:"+part)
+	if b.onceCalls > 0 {
+		b.rec.Tags = append(b.rec.Tags, "once:one-parse-many-lengths")
+	}
 	sort.Strings(b.rec.Tags)
 	if b.nonempty > 0 {
 		if part == "D" {
